@@ -360,4 +360,7 @@ func (f *frame) havocComps(st *bstate, comps map[string]string) {
 	for _, k := range keeps {
 		vc.assert(eq(sel(vc.comp(st, k.c.comp, k.c.sort), k.c.ref), k.old))
 	}
+	if len(comps) > 0 {
+		f.reassumeParamInvs(st)
+	}
 }
